@@ -43,6 +43,13 @@ def run(tier, replay_file=None):
     hs2, _ = gen.histories("Abm", consts(4, 2, 3, 100, '{0,100}', '{"Create","Delete","Send","RunStep"}', spawn=SPAWN_TLA), 4)
     sets.append((hs2 if not quick else __import__("random").Random(common.seed()).sample(hs2, min(len(hs2), 1500)), 100, SPAWN))
     R.cov["bfs_histories_nested_creation"] = len(hs2)
+    # an inbox that holds, in one step, an event the agent has no handler for in its state AHEAD of one it handles (and the
+    # other way round): every history Create, Create, SetState(idle), Send, Send, RunStep, RunStep
+    UNH = ('MC_Unh == LET n == Len(hist\') h == hist\'[n] IN /\\ (n \\in {1, 2} => h.op = "Create") /\\ (n = 3 => h.op = "SetState" /\\ h.st = "idle")\n'
+           '             /\\ (n \\in {4, 5} => h.op = "Send" /\\ h.d = 0) /\\ (n \\in {6, 7} => h.op = "RunStep")\n')
+    hu, _ = gen.histories("Abm", consts(2, 2, 3, 100, '{0}', '{"Create","SetState","Send","RunStep"}'), 7, defs=UNH, extra_cfg={"action_constraints": ["MC_Unh"]})
+    sets.append((hu, 100, None))
+    R.cov["bfs_histories_unhandled_then_handled"] = len(hu)
     nsim = 0
     menus = [(100, '{0,100,200,300}'), (50, '{0,30,50,70,100,150}'), (10, '{0,10,20,30,70,100}'),
              (25, '{0,25,50,60,75,100}'), (20, '{0,20,40,60,100}')]
